@@ -299,6 +299,20 @@ def lazy_sum_cases():
                 v = T % PP
                 out.append((["fe %s %s add bytes isneg isnz" % (le(x).hex(), le(y).hex())], ["%s.%s.%s" % (le(v).hex(), "T" if v & 1 else "F", "T" if v else "F")], None))
                 out.append((["fe %s %s add %s eq" % (le(x).hex(), le(y).hex(), le(v).hex())], ["T"], None))
+    # both operands just below 2^254 (the 32-bit backend's decoder keeps such values as plain non-negative limb integers, larger ones are
+    # wrapped by -p): the lazy sum is the integer 2^255 - (a + b), on either side of p; and the mirrored negative sums
+    for a in range(1, 22):
+        for b_ in range(1, 26):
+            x, y = (1 << 254) - a, (1 << 254) - b_
+            v = (x + y) % PP
+            enc = "%s.%s.%s" % (le(v).hex(), "T" if v & 1 else "F", "T" if v else "F")
+            out.append((["fe %s %s add bytes isneg isnz" % (le(x).hex(), le(y).hex())], [enc], None))
+            out.append((["fe %s %s add %s eq" % (le(x).hex(), le(y).hex(), le(v).hex())], ["T"], None))
+            out.append((["fe %s %s add one mul bytes" % (le(x).hex(), le(y).hex())], [le(v).hex()], None))
+            w = (-(x + y)) % PP
+            encw = "%s.%s.%s" % (le(w).hex(), "T" if w & 1 else "F", "T" if w else "F")
+            out.append((["fe %s neg %s neg add bytes isneg isnz" % (le(x).hex(), le(y).hex())], [encw], None))
+            out.append((["fe %s neg %s sub bytes isneg isnz" % (le(x).hex(), le(y).hex())], [encw], None))
     # differences: x - y = T for T around 0, -p, -2^255 and +p (y, x below 2^255)
     for c in (0, -PP, -(1 << 255) + 1, PP):
         for d in range(-40, 41):
